@@ -521,28 +521,31 @@ func solveAll(obls []*Obligation, outDir string, timeout time.Duration, thorough
 			if _, err := os.Stat(file); err != nil {
 				return
 			}
+			var others []solverSpec
 			for _, sp := range solverList() {
-				if strings.HasPrefix(r.Solver, sp.Name) {
-					continue
+				if !strings.HasPrefix(r.Solver, sp.Name) {
+					others = append(others, sp)
 				}
-				ct := timeout
-				if ct > 30*time.Second {
-					ct = 30 * time.Second
+			}
+			ct := 3 * time.Duration(r.Secs*float64(time.Second))
+			if ct < 10*time.Second {
+				ct = 10 * time.Second
+			}
+			if ct > timeout {
+				ct = timeout
+			}
+			tag := ""
+			if qf {
+				tag = "qf/"
+			}
+			for _, rr := range race(others, file, ct, 1) {
+				r.Tried = append(r.Tried, fmt.Sprintf("confirm:%s%s:%s:%.2fs", tag, rr.sp.Name, rr.status, rr.secs))
+				if rr.status == "unsat" {
+					r.Agreed = append(r.Agreed, rr.sp.Name)
 				}
-				st, out, secs := runSolver(sp, file, ct)
-				tag := ""
-				if qf {
-					tag = "qf/"
-				}
-				r.Tried = append(r.Tried, fmt.Sprintf("confirm:%s%s:%s:%.2fs", tag, sp.Name, st, secs))
-				if st == "unsat" {
-					r.Agreed = append(r.Agreed, sp.Name)
-					return
-				}
-				if st == "sat" && !qf {
-					r.Status, r.Output = "sat", "solver disagreement: "+r.Solver+" unsat, "+sp.Name+" sat\n"+out
-					r.Solver = sp.Name
-					return
+				if rr.status == "sat" && !qf {
+					r.Status, r.Output = "sat", "solver disagreement: "+r.Solver+" unsat, "+rr.sp.Name+" sat\n"+rr.out
+					r.Solver = rr.sp.Name
 				}
 			}
 		}(r)
